@@ -335,6 +335,8 @@ class FnSplicer:
             self._bool_or_assign(body_open, body_close)
         if 'let-chain-first' in (spec.get('rewrites') or []):
             self._let_chain_first(body_open, body_close)
+        if 'mut-self-to-local' in (spec.get('rewrites') or []):
+            self._mut_self_to_local(kwi, pclose, body_open, body_close)
         # an annotation set can name statements it relies on; if one is missing the set does not apply (lost anchor)
         for anchor in (spec.get('needs') or []):
             want = anchor.split()
@@ -892,6 +894,29 @@ class FnSplicer:
             self.segs.insert(toks[arrow].end, ' if ' + g_text + ' {', 'match-guard-to-if/if', order=0)
             self.segs.insert(toks[a_end - 1].end, ' } else { ' + b_text + ' }', 'match-guard-to-if/else-copy', order=9)
             self.counts['match-guard-to-if'] = self.counts.get('match-guard-to-if', 0) + 1
+
+    def _mut_self_to_local(self, kwi, pclose, body_open, body_close):
+        """Rule 'mut-self-to-local' (Verus does not support a `mut self` parameter): `fn f(mut self, ..) { B }` ->
+        `fn f(self, ..) { let mut verif_self = self; B' }` where B' is B with every `self` replaced by `verif_self`.
+        A by-value `mut` parameter is a local variable initialised with the argument; the rule spells that out."""
+        toks = self.src.toks
+        i = kwi
+        hit = None
+        while i < pclose:
+            if toks[i].kind == 'ident' and toks[i].text == 'mut' and toks[i + 1].text == 'self':
+                hit = i
+                break
+            i += 1
+        if hit is None:
+            raise ExtractError('mut-self-to-local: no `mut self` parameter')
+        self.segs.rewrite(toks[hit].start, toks[hit + 1].end, 'self', 'mut-self-to-local')
+        self.segs.insert(toks[body_open].end, '\n        let mut verif_self = self;', 'mut-self-to-local/let', order=1)
+        n = 0
+        for k in range(body_open + 1, body_close):
+            if toks[k].kind == 'ident' and toks[k].text == 'self':
+                self.segs.rewrite(toks[k].start, toks[k].end, 'verif_self', 'mut-self-to-local')
+                n += 1
+        self.counts['mut-self-to-local'] = self.counts.get('mut-self-to-local', 0) + 1
 
     def _let_chain_first(self, body_open, body_close):
         """Rule 'let-chain-first': `if let P = E && A { B }` (the `let` is the FIRST conjunct, one more conjunct, no
